@@ -231,6 +231,10 @@ func (e *renv) phaseV1(r *Rng, s *sinks, d density, p, otherPath *ibctesting.Pat
 
 func (e *renv) scenarioV1(r *Rng, s *sinks, d density, p, otherPath *ibctesting.Path, ordered bool) {
 	datas := [][]byte{[]byte("data-" + r.Str("abcdefgh", 6)), []byte("fail-" + r.Str("abcdefgh", 4)), r.Bytes(1 + r.Intn(40))}
+	if r.Chance(0.5) {
+		// the receiving application answers with a non-standard (raw bytes) acknowledgement
+		datas[r.Intn(3)] = []byte("raw-" + r.Str("abcdefgh", 5))
+	}
 	var ks []*sentV1
 	for i, data := range datas {
 		near := (!ordered && i == 0) || (ordered && i == len(datas)-1)
